@@ -127,6 +127,8 @@ class Harness(cm.BaseB):
 
     def one_rot(self, case):
         R, C = case["R"], case["C"]
+        cm.vandalize_helpers(R, C)
+        cm.vandalize_helpers(C, R)
         rot = rt.WellRotator((R, C))
         back = rt.WellRotator((C, R))
         V = []
@@ -143,26 +145,33 @@ class Harness(cm.BaseB):
                 if b != well_id(C - 1 - c, r):
                     V.append(("C15/rotate_ccw", f"{R}x{C}: {w} -> {b}, expected {well_id(C - 1 - c, r)}"))
             if lab == "full2d":
-                # inverse laws and four rotations = identity, through the rotator of the rotated plate
-                shp = shape_of(val)
-                a1 = np.array(cw).reshape(shp)
-                if [str(x) for x in np.asarray(back.rotate_ccw(a1)).flatten()] != src:
-                    V.append(("C15/inverse", f"{R}x{C}: rotate_ccw(rotate_cw(x)) != x"))
-                b1 = np.array(ccw).reshape(shp)
-                if [str(x) for x in np.asarray(back.rotate_cw(b1)).flatten()] != src:
-                    V.append(("C15/inverse", f"{R}x{C}: rotate_cw(rotate_ccw(x)) != x"))
-                x = np.array(val)
-                for i in range(4):
-                    x = (rot if i % 2 == 0 else back).rotate_cw(x)
-                if [str(w) for w in np.asarray(x).flatten()] != src:
-                    V.append(("C15/four-rotations", f"{R}x{C}: four clockwise rotations are not the identity"))
-                if len(set(cw)) != R * C or len(set(ccw)) != R * C:
-                    V.append(("C15/bijection", f"{R}x{C}: rotation is not injective"))
+                try:
+                    self.rot_laws(R, C, rot, back, val, src, cw, ccw, V)
+                except Exception as e:
+                    V.append(("C15/raised", f"{R}x{C}: rotating a rotated plate back raised {type(e).__name__}: {e}"))
         return "rot", (f"rot{R}x{C}" if R * C > 1 else None), V
+
+    def rot_laws(self, R, C, rot, back, val, src, cw, ccw, V):
+        """inverse laws and four rotations = identity, through the rotator of the rotated plate"""
+        shp = shape_of(val)
+        a1 = np.array(cw).reshape(shp)
+        if [str(x) for x in np.asarray(back.rotate_ccw(a1)).flatten()] != src:
+            V.append(("C15/inverse", f"{R}x{C}: rotate_ccw(rotate_cw(x)) != x"))
+        b1 = np.array(ccw).reshape(shp)
+        if [str(x) for x in np.asarray(back.rotate_cw(b1)).flatten()] != src:
+            V.append(("C15/inverse", f"{R}x{C}: rotate_cw(rotate_ccw(x)) != x"))
+        x = np.array(val)
+        for i in range(4):
+            x = (rot if i % 2 == 0 else back).rotate_cw(x)
+        if [str(w) for w in np.asarray(x).flatten()] != src:
+            V.append(("C15/four-rotations", f"{R}x{C}: four clockwise rotations are not the identity"))
+        if len(set(cw)) != R * C or len(set(ccw)) != R * C:
+            V.append(("C15/bijection", f"{R}x{C}: rotation is not injective"))
 
     def one_rand(self, case):
         R, C, seed, mode = case["R"], case["C"], case["seed"], case["mode"]
         V = []
+        cm.vandalize_helpers(R, C)
         try:
             rz = rt.WellRandomizer((R, C), seed, mode=mode)
             rz2 = rt.WellRandomizer((R, C), seed, mode=mode)
@@ -185,7 +194,10 @@ class Harness(cm.BaseB):
             bw = self.apply(rz.derandomize_wells, np.array(fw).reshape(shp).tolist() if shp else fw[0], V, f"derandomize_wells {R}x{C} {lab}")
             if bw is not None and bw != src:
                 V.append(("C15/inverse", f"{R}x{C} seed {seed} {mode} {lab}: derandomize(randomize(x)) != x"))
-            fw2 = [str(x) for x in np.asarray(rz2.randomize_wells(np.array(val))).flatten()] if True else None
+            try:
+                fw2 = [str(x) for x in np.asarray(rz2.randomize_wells(np.array(val))).flatten()]
+            except Exception as e:
+                fw2 = f"raised {type(e).__name__}"
             if fw2 != fw:
                 V.append(("C15/seed-determinism", f"{R}x{C} seed {seed} {mode}: two randomizers with the same seed disagree"))
             for w, x in zip(src, fw):
@@ -202,13 +214,18 @@ class Harness(cm.BaseB):
                     V.append(("C15/bijection", f"{R}x{C} seed {seed} {mode}: not a permutation of the plate"))
                 dr = self.apply(rz.derandomize_wells, val, V, f"derandomize_wells {R}x{C} full")
                 if dr is not None:
-                    rr = [str(x) for x in np.asarray(rz.randomize_wells(np.array(dr).reshape(shp))).flatten()]
+                    try:
+                        rr = [str(x) for x in np.asarray(rz.randomize_wells(np.array(dr).reshape(shp))).flatten()]
+                    except Exception as e:
+                        rr = f"raised {type(e).__name__}"
                     if rr != src:
                         V.append(("C15/inverse", f"{R}x{C} seed {seed} {mode}: randomize(derandomize(x)) != x"))
         return f"rand:{mode}", (f"rand{R}x{C}/{seed}/{mode}" if R * C > 1 else None), V
 
     def one_shift(self, case):
         (RA, CA), (RB, CB) = case["A"], case["B"]
+        cm.vandalize_helpers(RA, CA)
+        cm.vandalize_helpers(RB, CB)
         V = []
         n_ok = 0
         for dr in range(RB):
